@@ -5,6 +5,7 @@ package main
 
 import (
 	"fmt"
+	"reflect"
 	"strings"
 	"time"
 
@@ -82,6 +83,7 @@ type Got struct {
 	Hang   bool      `json:"hang,omitempty"`
 	Calls  []CallRec `json:"calls"`
 	GoType string    `json:"gotype,omitempty"`
+	rt     reflect.Type
 }
 
 const watchdog = 20 * time.Second
@@ -209,5 +211,6 @@ func RunMode(src string, prog *vm.Program, m Mode, e *Env, lg *Log) Got {
 	v := Abs(out)
 	g.V = &v
 	g.GoType = fmt.Sprintf("%T", out)
+	g.rt = reflect.TypeOf(out)
 	return g
 }
